@@ -215,6 +215,8 @@ def in_prefix(seq, i: tm.T, p: tm.T) -> tm.T:
 
 
 def member_t(seq, p: tm.T) -> tm.T:
+    if isinstance(seq, (list, tuple)):
+        return tm.Or(*[tm.Eq(S(x), p) for x in seq])
     return in_prefix(seq, seq.length, p)
 
 
@@ -369,3 +371,153 @@ class ng_will_change:
     requires = lambda self: wrap_bool(RI(self, _res(self), assume=cur().data.get("active") == "stepup/core/nglob.py::NamedGlob.will_change"))
     ensures = _wc_post
     modifies = []
+
+
+# ------------------------------------------------------------------------------------------------ glob
+
+
+def _fs(name, p: tm.T) -> tm.T:
+    """The file system during the call: is_dir / lexists as functions of the path (assumed: it does not change
+    while the scan runs)."""
+    return cur().decls.fun("fs." + name, [STR], BOOL)(p)
+
+
+def _dirform(p: tm.T) -> tm.T:
+    """Path(p) / "": the path with a trailing separator (posixpath.join with an empty component)."""
+    return cur().decls.fun("fs.dirform", [STR], STR)(p)
+
+
+class _FsPath(sym.SymStr):
+    """path.Path as glob() uses it."""
+
+    __slots__ = ()
+
+    def is_dir(self):
+        return wrap_bool(_fs("is_dir", self.t))
+
+    def __truediv__(self, other):
+        if not (isinstance(other, str) and other == ""):
+            raise sym.Unsupported("Path / x for x other than the empty string")
+        return _FsPath(_dirform(self.t))
+
+
+def _fs_path(x):
+    x = sym.resolve(x)
+    if isinstance(x, _FsPath):
+        return x
+    if isinstance(x, (sym.SymStr, str)):
+        return _FsPath(S(x))
+    raise sym.Unsupported(f"Path() of {x!r}")
+
+
+class _OsPath:
+    @staticmethod
+    def lexists(p):
+        return wrap_bool(_fs("lexists", S(p)))
+
+
+class _Os:
+    path = _OsPath
+
+
+def _found(self):
+    """What glob.iglob yields for the pattern's standard glob: a sequence that is a function of the pattern (and
+    of the file system)."""
+    c = cur()
+    q = ty.SeqOf(ty.Str).fresh("iglob")
+    c.data["iglob"] = q
+    return q
+
+
+class _Glob:
+    @staticmethod
+    def iglob(pattern, *, recursive=False, include_hidden=False, root_dir=None, dir_fd=None):
+        if recursive is not True or include_hidden is not True or root_dir is not None or dir_fd is not None:
+            raise sym.Unsupported("iglob without recursive=True, include_hidden=True")
+        c = cur()
+        ng = c.data["args"]["self"]
+        if pattern is not ng._fields["_glob_pattern"]:
+            raise sym.Unsupported("iglob of something other than the pattern's own standard glob")
+        q = c.data.get("iglob")
+        if q is None:
+            q = _found(ng)
+        c.event("iglob", pattern=pattern)
+        return q
+
+
+def _kept(g: tm.T, p: tm.T) -> tm.T:
+    """The scan keeps the iglob result g as p: a directory with its separator, anything else only if it exists."""
+    d = _fs("is_dir", g)
+    return tm.Or(tm.And(d, tm.Eq(p, _dirform(g))), tm.And(tm.Not(d), _fs("lexists", g), tm.Eq(p, g)))
+
+
+def _from_scan(q, upto: tm.T, p: tm.T) -> tm.T:
+    c = cur()
+    j = tm.Var(c.fresh_name("j!bound"), INT)
+    return tm.Exists([(j.s, INT)], tm.And(tm.Le(tm.mk_int(0), j), tm.Lt(j, upto), _kept(S(q.elem(j)), p)))
+
+
+def _form(g: tm.T) -> tm.T:
+    return tm.Ite(_fs("is_dir", g), _dirform(g), g)
+
+
+def _ok(g: tm.T) -> tm.T:
+    return tm.Or(_fs("is_dir", g), _fs("lexists", g))
+
+
+def _glob_inv(e):
+    """(1) every collected path is the kept form of an iglob result visited so far; (2) every visited iglob result
+    that is kept has its form among the collected paths."""
+    c = cur()
+    i = sym.I(e.i)
+    paths = e.paths
+    if not isinstance(paths, sym.SymSeq):
+        return True  # loop entry: nothing visited, nothing collected
+    m, j = tm.Var(c.fresh_name("m!bound"), INT), tm.Var(c.fresh_name("j!bound"), INT)
+    m2, j2 = tm.Var(c.fresh_name("m!bound"), INT), tm.Var(c.fresh_name("j!bound"), INT)
+    one = tm.ForAll([(m.s, INT)], tm.Implies(
+        tm.And(tm.Le(tm.mk_int(0), m), tm.Lt(m, paths.length)),
+        tm.Exists([(j.s, INT)], tm.And(tm.Le(tm.mk_int(0), j), tm.Lt(j, i), _kept(S(e.seq.elem(j)), S(paths.elem(m)))))))
+    two = tm.ForAll([(j2.s, INT)], tm.Implies(
+        tm.And(tm.Le(tm.mk_int(0), j2), tm.Lt(j2, i), _ok(S(e.seq.elem(j2)))),
+        tm.Exists([(m2.s, INT)], tm.And(tm.Le(tm.mk_int(0), m2), tm.Lt(m2, paths.length),
+                                        tm.Eq(S(paths.elem(m2)), _form(S(e.seq.elem(j2))))))))
+    return [wrap_bool(one), wrap_bool(two)]
+
+
+def _glob_post(self, old):
+    c = cur()
+    q = c.data.get("iglob")
+    if q is None:
+        return False
+    r0, r = _res(old.self), _res(self)
+    return wrap_bool(tm.And(RI(self, r, assume=False),
+                            _quant(lambda p: tm.Iff(rec_t(self, r, p),
+                                                    tm.Or(rec_t(self, r0, p),
+                                                          tm.And(accepted_t(self, p), _from_scan(q, q.length, p)))))))
+
+
+def _glob_finish(c, outcome, args, old):
+    scans = [e for e in c.trace if e.kind == "iglob"]
+    c.prove("the_file_system_is_scanned_once", tm.mk_bool(len(scans) == 1), kind="trace")
+
+
+def _ng_self_glob(a):
+    o = _ng_self()
+    o._fields["_glob_pattern"] = ty.Str.fresh("self._glob_pattern")
+    return o
+
+
+@contract("stepup/core/nglob.py::NamedGlob.glob", props=["C17"])
+class ng_glob:
+    """After a scan, exactly the previously recorded paths and the accepted ones among what the standard glob of
+    the pattern yields are recorded, a directory with its separator, anything that is not a directory only if it
+    exists (glob.iglob yields the base directory of a trailing /** without checking it: finding F9)."""
+
+    args = dict(self=_ng_self_glob)
+    env = dict(Path=_fs_path, os=_Os, glob=_Glob)
+    requires = lambda self: wrap_bool(RI(self, _res(self), assume=cur().data.get("active") == "stepup/core/nglob.py::NamedGlob.glob"))
+    ensures = _glob_post
+    finish = _glob_finish
+    loops = {0: LoopSpec(invariant=_glob_inv, locals=dict(paths=_PATHS, path=ty.Str))}
+    modifies = ["self._results"]
